@@ -127,6 +127,7 @@ inductive St (D : Type)
   | empty                          -- neither `_render` nor `_error`
   | rendered (d : D)               -- `_render`
   | failed (e : Err) (img : D)     -- `_error` and `_render` = the "parse"-stage error image
+deriving DecidableEq, Repr
 
 def St.hasRender : St D → Bool
   | .empty => false
@@ -222,6 +223,7 @@ def asFmtS (E : Env B D) (st : St D) (q : Req B D) (f : Str) : Res D D :=
 inductive ReprOut (D : Type)
   | short              -- `<Diagram 'name'>`
   | drawn (d : D)      -- short repr, newline, the terminal escapes
+deriving DecidableEq, Repr
 
 /-- what an entry point hands back -/
 inductive Out (D : Type)
@@ -233,6 +235,7 @@ inductive Out (D : Type)
   | bundleText (r : ReprOut D)           -- `{"text/plain": repr(self)}`
   | written (file : Option Str) (d : D)  -- `save`: `d` (utf-8 encoded if `str`) written to the given file (`none`) or to the generated name
   | done                                 -- `invalidate_cache`
+deriving DecidableEq, Repr
 
 def termgraphics : Str := "termgraphics".toList
 def svgName : Str := "svg".toList
